@@ -620,6 +620,73 @@ func rulePanic5(c *Ctx, r *Reporter) {
 			r.ok("Index.tuples:values non-empty", c.pos(phi.Pos()), "every column contributes at least one value, so at least one tuple is produced")
 		}
 	})
+	// the per-column value list may be produced by a helper of package bsonkit: every value it returns must be a
+	// literal one-element slice or an array that was tested to be non-empty
+	allInstrs(fn, func(in ssa.Instruction) {
+		call, ok := in.(*ssa.Call)
+		if !ok {
+			return
+		}
+		h := call.Call.StaticCallee()
+		if h == nil || h == fn || fnPkgPath(h) != pkgBsonkit || h.Blocks == nil {
+			return
+		}
+		st, ok := call.Type().Underlying().(*types.Slice)
+		if !ok {
+			return
+		}
+		if _, isIface := st.Elem().Underlying().(*types.Interface); !isIface {
+			return
+		}
+		n++
+		var problems []string
+		for _, ret := range returnsOf(h) {
+			if ret.Block() == h.Recover {
+				continue
+			}
+			e := stripValue(retVal(ret, 0))
+			if isLiteral(e) {
+				continue
+			}
+			good := false
+			for _, b := range h.Blocks {
+				iff, ok := b.Instrs[len(b.Instrs)-1].(*ssa.If)
+				if !ok {
+					continue
+				}
+				bo, ok := iff.Cond.(*ssa.BinOp)
+				if !ok {
+					continue
+				}
+				lc, ok := bo.X.(*ssa.Call)
+				if !ok {
+					continue
+				}
+				bi, ok := lc.Call.Value.(*ssa.Builtin)
+				if !ok || bi.Name() != "len" || !sameSource(stripValue(lc.Call.Args[0]), e) {
+					continue
+				}
+				if k, ok := constInt(bo.Y); !ok || k != 0 {
+					continue
+				}
+				nonZero := b.Succs[1]
+				if bo.Op == token.NEQ || bo.Op == token.GTR {
+					nonZero = b.Succs[0]
+				}
+				if (bo.Op == token.EQL || bo.Op == token.NEQ || bo.Op == token.GTR) && len(nonZero.Preds) == 1 && (nonZero == ret.Block() || nonZero.Dominates(ret.Block())) {
+					good = true
+				}
+			}
+			if !good {
+				problems = append(problems, fmt.Sprintf("%s can return the (possibly empty) array %s without having established len != 0", h.Name(), e.Name()))
+			}
+		}
+		if len(problems) > 0 {
+			r.bad("Index.tuples:values non-empty", c.pos(call.Pos()), strings.Join(problems, "; ")+": tuples() could return no tuple and Add/Has/Remove index tuples[0]")
+		} else {
+			r.ok("Index.tuples:values non-empty", c.pos(call.Pos()), "through "+h.Name()+": every column contributes at least one value, so at least one tuple is produced")
+		}
+	})
 	r.guard(n, 1, "per-column value lists in Index.tuples")
 	// the consumers really rely on it
 	use := 0
